@@ -678,3 +678,93 @@ def project(tree, real=False):
             o["children"] = ch
         return o
     return tree
+
+
+# ---------------------------------------------------------------------------------------------
+# which data fields are read where (for the binding-map oracle)
+def tree_fields(t, bound=()):
+    out = set()
+    if isinstance(t, tuple):
+        if t and t[0] == "data":
+            if t[1] not in bound:
+                out.add(t[1])
+            return out
+        if t and t[0] == "str":
+            return out
+        for x in t:
+            out |= tree_fields(x, bound)
+    elif isinstance(t, list):
+        for x in t:
+            out |= tree_fields(x, bound)
+    return out
+
+
+def value_fields(v, bound=()):
+    if v is None or v[0] == "static":
+        return set()
+    if v[0] == "expr":
+        return tree_fields(v[1], bound)
+    out = set()
+    for p in v[1]:
+        if p[0] == "e":
+            out |= tree_fields(p[1], bound)
+    return out
+
+
+def field_uses(t):
+    """(reachable, unreachable, has_include): data fields of the MAIN template read in statically reachable value positions /
+    in dynamic subtrees or structural positions"""
+    reach, unreach = set(), set()
+    has_include = [False]
+
+    def nodes(ns, dyn, bound):
+        for n in ns:
+            node(n, dyn, bound)
+
+    def elem(n, dyn, bound):
+        for fam, name, v in n[2]:
+            (unreach if dyn else reach).update(value_fields(v, bound))
+        nodes(n[3], dyn, bound)
+
+    def carrier(n, bound):
+        if n[0] == "block":
+            nodes(n[1], True, bound)
+        else:
+            elem(n, True, bound)
+
+    def node(n, dyn, bound):
+        k = n[0]
+        if k == "text":
+            (unreach if dyn else reach).update(value_fields(n[1], bound))
+        elif k == "elem":
+            elem(n, dyn, bound)
+        elif k == "block":
+            nodes(n[1], dyn, bound)
+        elif k == "for":
+            unreach.update(value_fields(n[1], bound))
+            carrier(n[5], tuple(bound) + (n[2] or "item", n[3] or "index"))
+        elif k == "if":
+            for cond, car in n[1]:
+                unreach.update(value_fields(cond, bound))
+                carrier(car, bound)
+            if n[2] is not None:
+                carrier(n[2], bound)
+        elif k == "tref":
+            unreach.update(value_fields(n[1], bound))
+            for d in n[2] or []:
+                if d[0] == "named":
+                    unreach.update(tree_fields(d[2], bound))
+                elif d[0] == "short":
+                    if d[1] not in bound:
+                        unreach.add(d[1])
+                else:
+                    unreach.update(tree_fields(d[1], bound))
+        elif k == "slot":
+            unreach.update(value_fields(n[1], bound))
+            for nm, v in n[2]:
+                unreach.update(value_fields(v, bound))
+        elif k == "include":
+            has_include[0] = True
+
+    nodes(t["nodes"], False, ())
+    return reach, unreach, has_include[0]
